@@ -70,8 +70,16 @@ pub assume_specification<T, F: FnOnce(T) -> bool>[ Option::<T>::is_some_and ](o:
 // `v.transform_data(insert_sub_words)` from within `insert_sub_words` itself (R-SELFREF) and
 // `v.constant_fold()`: assumed callees, uninterpreted results (determinism only).
 pub uninterp spec fn tx_isw(v: RSV) -> RSV;
+pub uninterp spec fn tx_ims(v: RSV) -> RSV;
 pub uninterp spec fn cfold(v: RSV) -> RSV;
+pub uninterp spec fn cfold_data(d: RSVD) -> RSVD;
+impl RSVD {
+    #[verifier::external_body]
+    pub fn constant_fold(&self) -> (r: Self) ensures r == cfold_data(*self) { unimplemented!() }
+}
 impl RSV {
+    #[verifier::external_body]
+    pub fn tx_exec_ims(&self) -> (r: RuntimeBoxedVal) ensures *r == tx_ims(*self) { unimplemented!() }
     #[verifier::external_body]
     pub fn tx_exec_isw(&self) -> (r: RuntimeBoxedVal) ensures *r == tx_isw(*self) { unimplemented!() }
     #[verifier::external_body]
@@ -96,6 +104,20 @@ impl RSV {
                 decreases 257 - counter,
 //@end
 }
+
+//@extract file=src/tc/lift/mul_shifted.rs path="impl Lift for MulShiftedValue|fn run|fn insert_multiplicative_shifts"
+//@ret r
+//@rw R-SELFREF count=2
+//@old
+.transform_data(insert_multiplicative_shifts)
+//@new
+.tx_exec_ims()
+//@spec
+    ensures
+        r matches Some(RSVD::Shifted { offset, .. }) ==> offset <= 256,                           //@ob C12.arith.mul_shifted.shift_inside_slot
+        r matches Some(d2) ==> d2 is Shifted,                                                     //@ob C12.arith.mul_shifted.creates_only_shifted
+        r is Some ==> *data is Multiply,                                                          //@ob C12.arith.mul_shifted.only_on_multiplication
+//@end
 
 // =========================== sub_word.rs ===========================
 #[derive(Copy, Clone)]
